@@ -95,12 +95,15 @@ def exhaustive_short(maxlen, entries):
 ENTRIES = ["Dns", "Flags", "Question", "RR", "DomainName", "Type", "Class", "QType", "QClass"]
 
 
-def enumerate_cases(length, entries):
+def enumerate_cases(length, entries, second=None):
     """A cases covering every octet string of exactly `length` (3 or 4) octets: one case per prefix of
-    length-2 octets, each enumerating the 65,536 two-octet suffixes in-process"""
+    length-2 octets, each enumerating the 65,536 two-octet suffixes in-process; `second`: restrict the second
+    octet of a 2-octet prefix to these values (every first octet is kept)"""
     out = []
     for e in entries:
         for v in range(256 ** (length - 2)):
+            if second is not None and length == 4 and (v & 0xFF) not in second:
+                continue
             out.append("A %s %s 2" % (e, v.to_bytes(length - 2, "big").hex()))
     return out
 
@@ -169,10 +172,14 @@ class C01(Prop):
                 big.append(S.d("Dns", x))
         s.append(("big", big))
         if tier in ("thorough", "search"):
-            # every octet string of length 4 as a name (4.3e9 decodes per runner); the flag and code entry points read
-            # two octets only, so longer inputs add nothing there
+            # octet strings of length 4 as a name: every first octet x the second octet in every class that the name
+            # reader distinguishes (end, short labels, 62..65, 0xbe..0xc1 around the pointer tag, 0xfe, 0xff) x all
+            # 65,536 suffixes (2.5e8 decodes per runner; the complete 4.3e9 took the model runner an hour on a busy
+            # machine and then timed out); the flag and code entry points read two octets only
             if not search:
-                s.append(("exhaustive-len-4-names", enumerate_cases(4, ["DomainName"])))
+                s.append(("len-4-names-all-first-octets-x-22-second-octets",
+                          enumerate_cases(4, ["DomainName"], second={0, 1, 2, 3, 4, 0x3e, 0x3f, 0x40, 0x41, 0x7f, 0x80, 0xbe, 0xbf,
+                                                                    0xc0, 0xc1, 0xc2, 0xc3, 0xc4, 0xfd, 0xfe, 0xff, 0x61})))
             # coverage-guided search (libFuzzer) seeded with the repository's vectors: crash inputs on every entry
             # point, the corpus it grew (inputs reaching new code) on the message and record entry points
             import common as C
